@@ -1,4 +1,5 @@
 SPECIFICATION Spec
-CONSTANT Mutant = "expiry_unchecked"
+CONSTANTS Mutant = "expiry_unchecked"
+  Full = FALSE
 INVARIANTS InvTypes InvSignature InvUnsigned InvAlgKey InvAlgAllowed InvIssuer InvAudience InvScopes InvValidity InvKidUnique InvMerge InvRefines InvVerdict
 CHECK_DEADLOCK FALSE
